@@ -58,6 +58,33 @@ import (
 // push the failures of another defect out of the report (vlib stops recording after 600 failures in total)
 var c06PerSig = map[string]int{}
 
+// c06Visible asks the real GetRegistrations — the function the wrapping transports use to find the registration
+// a connection belongs to — for the registrations under reg's phantom and returns the one that is reg's session
+// (the object stored under reg's key), nil if it is not returned.  `stored` is what the registry holds for the key.
+// The two views must agree: returned iff stored and marked valid, and then the very same object.
+func c06Visible(out *vlib.Out, rm *RegistrationManager, reg, stored *DecoyRegistration, fail func(sig, what string)) *DecoyRegistration {
+	var vis *DecoyRegistration
+	n := 0
+	for _, r := range rm.GetRegistrations(reg.PhantomIp) {
+		if d, ok := r.(*DecoyRegistration); ok && stored != nil && d == stored {
+			vis = d
+		}
+		n++
+	}
+	if n > 3 {
+		n = 3
+	}
+	out.Count(fmt.Sprintf("getregistrations:returned-%d", n))
+	out.Checked()
+	switch {
+	case stored != nil && stored.Valid && vis == nil:
+		fail("C06:getregistrations-hides-valid-registration", "a registration marked valid is not among what GetRegistrations returns for its phantom")
+	case vis != nil && !vis.Valid:
+		fail("C06:getregistrations-returns-unvalidated", "GetRegistrations returns a registration that is not marked valid, covert "+strconv.Quote(vis.Covert))
+	}
+	return vis
+}
+
 func c06Fail(out *vlib.Out, sig, what, replay string) {
 	c06PerSig[sig]++
 	if c06PerSig[sig] > 25 {
@@ -863,7 +890,9 @@ func (w *c06World) runC06(out *vlib.Out, pp *c06Parsed, provided string, gen int
 		pp.checkAnnounced(out, fail, "")
 	}
 	stored := pp.rm.registeredDecoys.RegistrationExists(reg)
-	valid := stored != nil && stored.Valid
+	// the `valid` / stored-covert fields of the line are what the real GetRegistrations hands a connection handler
+	stored = c06Visible(out, pp.rm, reg, stored, fail)
+	valid := stored != nil
 	storedF := "-"
 	if valid {
 		storedF = c06Hex(stored.Covert)
@@ -1158,8 +1187,9 @@ func (w *c06World) runSched(out *vlib.Out, pol c06Policy, coverts []string, sche
 	var full, order []int
 	checkState := func(when string) {
 		st := pp.rm.registeredDecoys.RegistrationExists(regs[0])
+		st = c06Visible(out, pp.rm, regs[0], st, fail)
 		out.Checked()
-		if st != nil && st.Valid {
+		if st != nil {
 			if _, _, problem, detail := pp.literal(st.Covert); problem != "" {
 				fail("C06:valid-registration-unchecked-covert:"+problem, when+": a valid registration (returned for connections) holds the covert "+detail)
 			}
